@@ -315,6 +315,181 @@ theorem punctProcess_geo (hrc : ComposeGeoSpec env.recompose) (k : Key) {c : Ctx
                 | exact pushInput_geo hrc (alternatePunct_geo _ _ h) _
                 | exact punctFinish_geo hrc _ _ (pushInput_geo hrc (alternatePunct_geo _ _ h) _)
 
+/-! ascii composer -/
+
+theorem acUnpress_geo {c : Ctx} (h : GeoInv c) : GeoInv (acUnpress c) := h.of_comp rfl
+
+theorem acSwitch_geo (hrc : ComposeGeoSpec env.recompose) (m : Bool) (st : AcStyle) {c : Ctx} (h : GeoInv c) :
+    GeoInv (acSwitch env m st c) := by
+  unfold acSwitch
+  refine setOption_geo hrc ?_ _ _
+  have h0 : GeoInv { c with acInline := false } := h.of_comp rfl
+  split
+  · cases st <;> dsimp only
+    · split
+      · exact h.of_comp rfl
+      · exact h0
+    · exact confirmCurrentSelection_geo hrc h0
+    · exact commit_geo hrc (clearNonConfirmedComposition_geo h0)
+    · exact clear_geo hrc _
+  · exact h
+
+theorem acToggleWithKey_geo (hrc : ComposeGeoSpec env.recompose) (code : Int) {c : Ctx} (h : GeoInv c) :
+    GeoInv (acToggleWithKey env code c) := by
+  unfold acToggleWithKey
+  split
+  · exact h
+  · exact (acSwitch_geo hrc _ _ h).of_comp rfl
+
+theorem acCapsLock_geo (hrc : ComposeGeoSpec env.recompose) (st : AcStyle) (k : Key) {c : Ctx} (h : GeoInv c) :
+    GeoInv (acCapsLock env st k c).1 := by
+  unfold acCapsLock
+  dsimp only
+  (repeat' split) <;>
+    first
+      | exact h
+      | exact acUnpress_geo h
+      | exact commitBuf_geo h _
+      | exact acSwitch_geo hrc _ _ (GeoInv.of_comp (acUnpress_geo h) rfl)
+
+theorem acModifierKey_geo (hrc : ComposeGeoSpec env.recompose) (b : Bool) (k : Key) {c : Ctx} (h : GeoInv c) :
+    GeoInv (acModifierKey env b k c).1 := by
+  unfold acModifierKey
+  dsimp only
+  (repeat' split) <;>
+    first
+      | exact h
+      | exact h.of_comp rfl
+      | exact acUnpress_geo h
+      | exact acUnpress_geo (acToggleWithKey_geo hrc _ h)
+
+theorem acOtherKey_geo (hrc : ComposeGeoSpec env.recompose) (k : Key) {c : Ctx} (h : GeoInv c) : GeoInv (acOtherKey env k c).1 := by
+  unfold acOtherKey
+  dsimp only
+  (repeat' split) <;> first | exact acUnpress_geo h | exact pushInput_geo hrc (acUnpress_geo h) _
+
+theorem asciiProcess_geo (hrc : ComposeGeoSpec env.recompose) (k : Key) {c : Ctx} (h : GeoInv c) : GeoInv (asciiProcess env k c).1 := by
+  unfold asciiProcess
+  have hr : GeoInv (acCapsStep env k c).1 := by
+    unfold acCapsStep
+    split
+    · exact acCapsLock_geo hrc _ k h
+    · exact h
+  generalize acCapsStep env k c = r at hr
+  dsimp only
+  (repeat' split) <;>
+    first
+      | exact acUnpress_geo h
+      | exact hr
+      | exact acToggleWithKey_geo hrc _ (acUnpress_geo hr)
+      | exact acModifierKey_geo hrc _ k hr
+      | exact acOtherKey_geo hrc k hr
+
+theorem acSettle_geo {c : Ctx} (h : GeoInv c) : GeoInv (acSettle c) := by
+  unfold acSettle
+  split
+  · exact h.of_comp rfl
+  · exact h
+
+/-! shape post-processor, key binder -/
+
+theorem shapePost_geo (k : Key) {c : Ctx} (h : GeoInv c) : GeoInv (shapePost k c).1 := by
+  unfold shapePost
+  (repeat' split) <;> first | exact h | exact commitBuf_geo h _
+
+theorem kbLastKey_geo {c : Ctx} (h : GeoInv c) (v : Int) : GeoInv { c with kbLastKey := v } := h.of_comp rfl
+
+theorem foldl_geo {α : Type} (f : Ctx → α → Ctx) (hf : ∀ c a, GeoInv c → GeoInv (f c a)) :
+    ∀ (l : List α) {c : Ctx}, GeoInv c → GeoInv (l.foldl f c)
+  | [], _, h => h
+  | a :: l, _, h => foldl_geo f hf l (hf _ a h)
+
+theorem radioSelect_geo (hrc : ComposeGeoSpec env.recompose) (group : List String) (idx : Nat) {c : Ctx} (h : GeoInv c) :
+    GeoInv (radioSelect env group idx c) := by
+  unfold radioSelect
+  refine foldl_geo _ ?_ _ h
+  intro c o hc
+  dsimp only
+  split
+  · exact setOption_geo hrc hc _ _
+  · exact hc
+
+theorem kbToggle_geo (hrc : ComposeGeoSpec env.recompose) (opt : String) {c : Ctx} (h : GeoInv c) : GeoInv (kbToggle env opt c) := by
+  unfold kbToggle
+  split
+  · split
+    · dsimp only
+      (repeat' split) <;> first | exact h | exact radioSelect_geo hrc _ _ h
+    · exact setOption_geo hrc h _ _
+  · exact setOption_geo hrc h _ _
+
+theorem kbSet_geo (hrc : ComposeGeoSpec env.recompose) (opt : String) {c : Ctx} (h : GeoInv c) : GeoInv (kbSet env opt c) := by
+  unfold kbSet
+  (repeat' split) <;> first | exact h | exact radioSelect_geo hrc _ _ h | exact setOption_geo hrc h _ _
+
+theorem kbUnset_geo (hrc : ComposeGeoSpec env.recompose) (opt : String) {c : Ctx} (h : GeoInv c) : GeoInv (kbUnset env opt c) := by
+  unfold kbUnset
+  dsimp only
+  (repeat' split) <;> first | exact h | exact radioSelect_geo hrc _ _ h | exact setOption_geo hrc h _ _
+
+theorem kbReinterpret_geo (hrc : ComposeGeoSpec env.recompose) (k : Key) {c : Ctx} (h : GeoInv c) :
+    GeoInv (kbReinterpret env k c).1 := by
+  unfold kbReinterpret
+  dsimp only
+  (repeat' split) <;> first | exact h | exact kbLastKey_geo h _ | exact kbLastKey_geo (pushInput_geo hrc h _) _
+
+theorem kbPerform_geo (hrc : ComposeGeoSpec env.recompose) (reent : Key → Ctx → Ctx × Bool)
+    (hre : ∀ k c, GeoInv c → GeoInv (reent k c).1) (a : KbAction) {c : Ctx} (h : GeoInv c) : GeoInv (kbPerform reent env a c) := by
+  unfold kbPerform
+  cases a <;> dsimp only
+  · exact foldl_geo _ (fun c kk hc => hre _ _ hc) _ h
+  · exact kbToggle_geo hrc _ h
+  · exact kbSet_geo hrc _ h
+  · exact kbUnset_geo hrc _ h
+
+theorem kbProcess_geo (hrc : ComposeGeoSpec env.recompose) (reent : Key → Ctx → Ctx × Bool)
+    (hre : ∀ k c, GeoInv c → GeoInv (reent k c).1) (k : Key) {c : Ctx} (h : GeoInv c) : GeoInv (kbProcess reent env k c).1 := by
+  unfold kbProcess
+  have h1 := kbReinterpret_geo hrc k h
+  dsimp only
+  (repeat' split) <;> first | exact h | exact h1 | exact kbPerform_geo hrc reent hre _ h1
+
+theorem procRunInner_geo (hrc : ComposeGeoSpec env.recompose) (hnp : NoPrevMatch env) (p : Proc) (k : Key) {c : Ctx} (h : GeoInv c) :
+    GeoInv (procRunInner env p k c).1 := by
+  unfold procRunInner
+  cases p <;> dsimp only
+  · exact spellerProcess_geo hrc hnp k h
+  · exact selectorProcess_geo hrc k h
+  · exact navigatorProcess_geo hrc k h
+  · exact editorProcess_geo hrc false k h
+  · exact editorProcess_geo hrc true k h
+  · exact h
+  · exact punctProcess_geo hrc k h
+  · exact h
+  · exact asciiProcess_geo hrc k h
+
+theorem chainInner_geo (hrc : ComposeGeoSpec env.recompose) (hnp : NoPrevMatch env) (k : Key) :
+    ∀ (ps : List Proc) {c : Ctx}, GeoInv c → GeoInv (chainInner env k ps c).1
+  | [], _, h => h
+  | p :: ps, c, h => by
+    unfold chainInner
+    have h1 := procRunInner_geo hrc hnp p k h
+    dsimp only
+    split
+    · exact h1
+    · exact h1
+    · exact chainInner_geo hrc hnp k ps h1
+
+theorem processKeyNested_geo (hrc : ComposeGeoSpec env.recompose) (hnp : NoPrevMatch env) (k : Key) {c : Ctx} (h : GeoInv c) :
+    GeoInv (processKeyNested env k c).1 := by
+  unfold processKeyNested
+  have h1 := chainInner_geo hrc hnp k env.processors h
+  dsimp only
+  refine acSettle_geo ?_
+  split
+  · exact h1
+  · exact shapePost_geo _ h1
+
 /-! chain and API -/
 
 theorem procRun_geo (hrc : ComposeGeoSpec env.recompose) (hnp : NoPrevMatch env) (p : Proc) (k : Key) {c : Ctx} (h : GeoInv c) :
@@ -328,6 +503,8 @@ theorem procRun_geo (hrc : ComposeGeoSpec env.recompose) (hnp : NoPrevMatch env)
   · exact editorProcess_geo hrc true k h
   · exact h
   · exact punctProcess_geo hrc k h
+  · exact kbProcess_geo hrc _ (fun k c hc => processKeyNested_geo hrc hnp k hc) k h
+  · exact asciiProcess_geo hrc k h
 
 theorem chain_geo (hrc : ComposeGeoSpec env.recompose) (hnp : NoPrevMatch env) (k : Key) : ∀ (ps : List Proc) {c : Ctx}, GeoInv c →
     GeoInv (chain env k ps c).1
